@@ -62,3 +62,13 @@ Theorem C12_guillot_rejects : forall (kir kv1 kv2 Tirr Tint : R),
   @guillot_valid R RTNum kir kv1 kv2 Tirr Tint = false.
 Proof. exact guillot_rejects. Qed.
 Print Assumptions C12_guillot_rejects.
+
+(* the Guillot profile is positive (hence finite after the fourth root) for physical parameters: positive opacities and
+   gravity, 0 <= alpha <= 1, non-negative temperatures not both zero; E2 values within the classical bound *)
+Theorem C12_guillot_positive : forall (kir kv1 kv2 alpha Tirr Tint grav P e21 e22 : R),
+  0 < kir -> 0 < kv1 -> 0 < kv2 -> 0 < grav -> 0 <= P -> 0 <= alpha <= 1 -> 0 <= Tirr -> 0 <= Tint -> 0 < Tirr + Tint ->
+  0 <= e21 -> e21 * (1 + kv1 / kir * (kir * P / grav)) <= exp (- (kv1 / kir * (kir * P / grav))) ->
+  0 <= e22 -> e22 * (1 + kv2 / kir * (kir * P / grav)) <= exp (- (kv2 / kir * (kir * P / grav))) ->
+  0 < @guillot_T4 R RTNum kir kv1 kv2 alpha Tirr Tint grav P e21 e22.
+Proof. exact guillot_T4_positive. Qed.
+Print Assumptions C12_guillot_positive.
